@@ -1,0 +1,39 @@
+//go:build verif
+
+package server
+
+import "sort"
+
+// VerifC12Session is one entry of ControlManager.ctlsByRunID as seen by the C12 harness.
+type VerifC12Session struct {
+	RunID    string // map key
+	Tag      string // loginMsg.Hostname of the stored session (the harness tags every login)
+	CtlRunID string // ctl.runID (cleared by Replaced)
+}
+
+// VerifC12Sessions returns a snapshot of the run id -> session table, sorted by run id.
+func (svr *Service) VerifC12Sessions() []VerifC12Session {
+	cm := svr.ctlManager
+	cm.mu.RLock()
+	defer cm.mu.RUnlock()
+	out := make([]VerifC12Session, 0, len(cm.ctlsByRunID))
+	for id, ctl := range cm.ctlsByRunID {
+		out = append(out, VerifC12Session{RunID: id, Tag: ctl.loginMsg.Hostname, CtlRunID: ctl.runID})
+	}
+	sort.Slice(out, func(i, j int) bool { return out[i].RunID < out[j].RunID })
+	return out
+}
+
+// VerifC12Names returns the global proxy name table as name -> Hostname of the owning login.
+func (svr *Service) VerifC12Names() map[string]string {
+	return svr.pxyManager.VerifC12Owners()
+}
+
+// VerifC12GetByID is ControlManager.GetByID projected to the login tag.
+func (svr *Service) VerifC12GetByID(runID string) (tag string, ok bool) {
+	ctl, ok := svr.ctlManager.GetByID(runID)
+	if !ok {
+		return "", false
+	}
+	return ctl.loginMsg.Hostname, true
+}
